@@ -213,6 +213,15 @@ func runC01(c *Ctx) error {
 			}
 			v = runeString(r, int(m), false)
 			cls = "str"
+			if r.Chance(35) { // byte length at bound-1 / bound / bound+1 with fewer characters (multi-byte)
+				b := int(base) + r.Range(-1, 1)
+				if b >= 3 && b <= 40 {
+					k := r.Range(1, b/3)
+					v = strings.Repeat(cjk[r.Intn(4)], k) + strings.Repeat("a", b-3*k)
+					m = int64(k + b - 3*k)
+					cls = "str-bytes-at-bound"
+				}
+			}
 		case "slice":
 			if m < 0 {
 				m = 0
@@ -335,6 +344,46 @@ func runC01(c *Ctx) error {
 		w.Add("CW ("+term+")", desc, fmt.Sprintf("b:%s:%s:%s%s:%s", rl, cls, pos(lo2), pos(hi2), entry))
 		w.Count("boundary." + kind)
 		w.Count("entry." + entry)
+	}
+	// ---- (C) directed grid: strings whose BYTE length sits exactly at / next to a bound while their
+	// character count is smaller (multi-byte text), every rule, through Var and a struct field
+	for _, rl := range sizeRules {
+		for _, bound := range []int{3, 4, 6, 9} {
+			for _, db := range []int{-1, 0, 1} {
+				b := bound + db
+				for k := 1; 3*k <= b; k++ {
+					if k > 2 && k < b/3 {
+						continue
+					}
+					s := strings.Repeat(cjk[(bound+k)%4], k) + strings.Repeat("z", b-3*k)
+					marker++
+					mk := fmt.Sprintf("M%d", marker)
+					lo2, hi2 := int64(bound), int64(bound+2)
+					switch rl {
+					case "le", "lt":
+						lo2, hi2 = 0, int64(bound)
+					case "to", "oto":
+					default:
+						hi2 = 0
+					}
+					text := sizeRuleText(rl, lo2, hi2) + "|" + mk
+					call := &walkCall{Entry: "var", VarRules: []string{text}, Src: s}
+					if (bound+k+db)%2 == 0 {
+						st := reflect.StructOf([]reflect.StructField{{Name: "F", Type: reflect.TypeOf(""), Tag: reflect.StructTag(`valid:"` + text + `"`)}})
+						sv := reflect.New(st).Elem()
+						sv.Field(0).SetString(s)
+						call = &walkCall{Entry: "struct", Src: sv.Addr().Interface()}
+					}
+					spec := fmt.Sprintf("SSize %s %s %s %s %s", sizeRuleCtor[rl], galZ(lo2), galZ(hi2), galVal(reflect.ValueOf(s), nil), gal.Str(mk))
+					term, desc := call.caseTerm([]string{spec})
+					desc["rule"] = text
+					desc["bytes"] = len(s)
+					desc["chars"] = len([]rune(s))
+					w.Add("CW ("+term+")", desc, fmt.Sprintf("bytes-at-bound:%s:%d:%d", rl, db, k))
+					w.Count("directed.bytes-at-bound")
+				}
+			}
+		}
 	}
 	w.Extra["evaluations"] = sweepTotal + marker
 	return w.Flush()
